@@ -345,3 +345,105 @@ PROPS["C13"] = dict(
           "emulation results on 3 generated inputs."),
     assumptions=["variable names and type names are not compared (the decoder invents names)"],
 )
+
+
+# ---------------------------------------------------------------- C14 (parser totality): grammar mutations + libFuzzer
+
+def c14_check(prop, tier, scale, cfg, ev):
+    import runner as R
+    import glob, shutil, hashlib
+    violation, known_status = R.driver_check(prop, tier, scale, cfg, ev)
+    exe = R.build_fuzz_binary(prop, cfg["fuzz_sources"])
+    # regression inputs (raw .orc files that crashed the parser before a fix)
+    for f in sorted(glob.glob(os.path.join(R.VERIF, "replays", prop, "*.orc"))):
+        verdict, out = R.replay_fuzz_artifact(exe, f, 3)
+        ev.stages.append({"stage": "replay-input", "file": os.path.relpath(f, R.VERIF), "verdict": verdict})
+        ev.evaluations += 1
+        if verdict == "fail" and not violation:
+            violation = f
+            R.log(out[-1500:])
+    if violation:
+        return violation, known_status
+    seconds = (45 if tier == "quick" else 900) * scale
+    stats, crashes = R.run_libfuzzer(exe, prop, "libfuzzer", os.path.join(R.VERIF, "corpus", "c14"),
+                                     os.path.join(R.VERIF, "corpus", "c14.dict"), seconds, 8192)
+    execs = sum(s.get("executions", 0) for s in stats)
+    ev.evaluations += execs
+    ev.extra_distinct += sum(s.get("distinct_nontrivial", 0) for s in stats)
+    ev.extra["libfuzzer"] = {
+        "executions": execs,
+        "nontrivial_inputs": sum(s.get("nontrivial", 0) for s in stats),
+        "inputs_with_error_records": sum(s.get("with_errors", 0) for s in stats),
+        "inputs_yielding_programs": sum(s.get("with_programs", 0) for s in stats),
+        "error_free_inputs_yielding_programs": sum(s.get("error_free_with_programs", 0) for s in stats),
+        "max_coverage_edges": max([s.get("cov", 0) for s in stats] or [0]),
+        "max_features": max([s.get("ft", 0) for s in stats] or [0]),
+        "workers": len(stats), "seconds": seconds,
+        "note": "distinct_nontrivial adds per-worker counts of distinct non-trivial inputs (22-bit hash table per worker, a lower bound)",
+    }
+    for s in stats:
+        for smp in s.get("samples", [])[:1]:
+            if len(ev.samples) < 12:
+                ev.samples.append("libFuzzer input: " + smp)
+    ev.stages.append({"stage": "libfuzzer", "workers": len(stats), "executions": execs, "crash_artifacts": len(crashes)})
+    for a in crashes:
+        verdict, out = R.replay_fuzz_artifact(exe, a, 3)
+        if verdict == "fail":
+            vdir = os.path.join(R.WORK, "violations")
+            os.makedirs(vdir, exist_ok=True)
+            dst = os.path.join(vdir, "%s-%s.orc" % (prop, hashlib.sha1(open(a, "rb").read()).hexdigest()[:12]))
+            shutil.copyfile(a, dst)
+            R.log(out[-2500:])
+            return dst, known_status
+        ev.unstable += 1
+    return None, known_status
+
+
+def c14_replay(prop, casefile, cfg):
+    import runner as R
+    if casefile.endswith(".case"):
+        exe = R.build_driver_binary(prop, cfg["variant"], cfg["sources"], cfg.get("cflags", ()))
+        import subprocess
+        r = subprocess.run([exe, "--mode", "replay", "--file", casefile, "--times", "3"], env=R.child_env(cfg["variant"]))
+        bad = r.returncode == 1
+    else:
+        exe = R.build_fuzz_binary(prop, cfg["fuzz_sources"])
+        verdict, out = R.replay_fuzz_artifact(exe, casefile, 3)
+        print(out[-3000:])
+        bad = verdict == "fail"
+    if bad:
+        print("VIOLATION property=%s replay=%s" % (prop, casefile))
+        return 1
+    print("REPLAY-PASS")
+    return 0
+
+
+PROPS["C14"] = dict(
+    variant="asan",
+    sources=["engine/prog.c", "props/c14_grammar.c", "props/c14_parse_fuzz.c"],
+    cflags=["-DC14_NO_FUZZ_ENTRY"],
+    fuzz_sources=["props/c14_parse_fuzz.c"],
+    fuzz=True,
+    custom=c14_check,
+    custom_replay=c14_replay,
+    level="exploration",
+    technique="coverage-guided fuzzing (libFuzzer, ASan+UBSan) plus rapidcheck grammar-based mutation of generated .orc files, semantic oracle inside the target",
+    level_text=("arbitrary byte strings (libFuzzer from an empty corpus and from 140 functions of the repository's .orc files, with a "
+                "dictionary of directives and opcode names) and structurally mutated generated files are parsed under address and "
+                "undefined-behaviour sanitizers; the target checks the return value / error-record contract and compiles and frees "
+                "every returned program. Fuzzing explores; it cannot show absence"),
+    level_note=("trusted base: the oracle in props/c14_parse_fuzz.c (line count = number of newlines + 1; one program per `.function` "
+                "line in an error-free parse), clang's sanitizers; inputs contain no NUL byte (the API takes a C string)"),
+    stages=[
+        dict(name="rc-grammar", mode="rc", quick=dict(cases=60000, max_size=400, budget=35), thorough=dict(cases=2000000, max_size=500, budget=500)),
+    ],
+    rule=("inputs: (a) rapidcheck: one or two generated valid functions printed as .orc text, then 0..4 structured mutations (token "
+          "deletion/duplication, directives and opcodes before any .function, lines with 1..200 tokens, >100 instructions, more "
+          "variables of a class than a program holds, unknown opcodes/directives, malformed numbers, missing final newline, LF/CRLF/CR "
+          "mixes, very long lines, deleted lines, control/high bytes); (b) libFuzzer byte-level mutation, half of the workers from an "
+          "empty corpus. Non-trivial = the parse returned a program with >= 1 instruction or >= 1 error record; distinct = distinct "
+          "input hashes among those. Oracle: orc_parse_code returns, -1 iff error records exist, records have source/text and "
+          "1 <= line <= number of lines, error-free parse => one program per .function, every program compiles (default target and "
+          "emulation-only) and is freed, error array released with orc_parse_error_freev, no sanitizer report."),
+    assumptions=["inputs contain no NUL byte", "programs returned together with error records are still compiled and freed (they must be safe, not meaningful)"],
+)
